@@ -50,6 +50,7 @@ def swarm(rng, tier: str, *, profile: str = "edit") -> dict:
         # equal values on purpose: bindings that compare equal (same leaf name, value and trivia) in one document
         "dup_values": on(0.25, 0.3),
         "in_body_comment": on(0.2, 0.3),
+        "paren_call": on(0.3, 0.5),
         "lambda": on(0.35, 0.45),
         "with": on(0.2, 0.35),
         "assert": on(0.1, 0.25),
@@ -84,8 +85,10 @@ class DocGen:
         r = self.rng.random()
         if not self.cfg["rich_values"] or r < 0.5:
             return str(base)
-        if r < 0.7:
+        if r < 0.62:
             return '"s%d"' % base
+        if r < 0.7:
+            return self.rng.choice(['"a${toString %d}b"', '"${lib.v%d}"', '"p-${cfg.n%d}-s"']) % base
         if r < 0.78:
             return self.rng.choice(["true", "false", "null"])
         if r < 0.86:
@@ -196,7 +199,10 @@ class DocGen:
         lines = self.members(1, 2, LETNAMES, ["r"] if self.cfg["attrpath"] else [], in_let=True)
         if not lines:
             lines = ["  u = %s;" % self._inline_literal()]
-        return "let\n" + "\n".join(lines) + "\nin\n"
+        kw = "let"
+        if self.cfg.get("in_body_comment") and self.rng.random() < 0.25:
+            kw = "let " + self.comment("k")  # comment on the `let` line
+        return kw + "\n" + "\n".join(lines) + "\nin\n"
 
     # -- whole document -------------------------------------------------
     def document(self) -> str:
@@ -226,10 +232,17 @@ class DocGen:
             call = rng.choice(["f ", "lib.mk ", 'lib.mk "n" ', "stdenv.mkDerivation "])
         elif cfg["paren"] and rng.random() < 0.7:
             paren = True
-        nlets = cfg["lets"] if not call and not paren else 0
-        if call and cfg["lets"] and rng.random() < 0.5:
+        paren_call = bool(call) and cfg.get("paren_call") and rng.random() < 0.6
+        nlets = cfg["lets"] if (not call and not paren) or paren_call else 0
+        if call and not paren_call and cfg["lets"] and rng.random() < 0.5:
             head.append(self.let_block())
-        for _ in range(nlets):
+        outer_head = None
+        if paren_call:
+            # `f (\n  let … in\n  { … }\n)`: let layers directly around a call argument, rendered at indent 2
+            outer_head, head = head, []
+        for k in range(nlets):
+            if k and cfg.get("in_body_comment") and rng.random() < 0.4:
+                head.append(self.comment("l") + "\n")  # own-line comment between two let layers
             head.append(self.let_block())
         if nlets and cfg.get("in_body_comment") and rng.random() < 0.6:
             # own-line comment (or blank line) between `in` and the body: trivia that belongs to the body
@@ -238,7 +251,12 @@ class DocGen:
         body = self.set_text(0, rec=rec)
         if paren:
             body = "(" + body + ")"
-        text = "".join(head) + call + body
+        if outer_head is not None:
+            inner = "".join(head) + body
+            inner = "\n".join(("  " + line if line else line) for line in inner.split("\n"))
+            text = "".join(outer_head) + call + "(\n" + inner + "\n)"
+        else:
+            text = "".join(head) + call + body
         if cfg["footer"]:
             r = rng.random()
             if r < 0.5:
@@ -340,8 +358,12 @@ class OpGen:
             return "[ %d %d ]" % (base, base + 1)
         if r < 0.92:
             return "{ k = %d; }" % base
-        if r < 0.96:
+        if r < 0.94:
             return "%d + 1" % base
+        if r < 0.96 and self.cfg.get("commented_values"):
+            return "%d # note%d" % (base, self.n)  # one expression followed by an end-of-line comment
+        if r < 0.98:
+            return '"w${toString %d}"' % base
         return "./v%d" % base
 
     def pick(self, dm: model.DocModel, *, scoped_bias: float = 0.0, allow_fail: bool = True) -> dict:
@@ -407,13 +429,12 @@ class OpGen:
         elif r < 0.75:
             roots = sorted({p[0] for p, _, ap in existing if ap and len(p) > 1})
             if roots:
-                p = (rng.choice(roots), rng.choice(["x", "y", "nu", "mu"]))
-                if rng.random() < 0.3:
-                    p = p + (rng.choice(["i", "o"]),)
+                p = (rng.choice(roots),) + tuple(rng.choice(["x", "y", "nu", "mu", "i"]) for _ in range(rng.choice([1, 1, 2, 2, 3])))
             else:
                 p = (rng.choice(FRESH),)
         elif r < 0.9:
-            pool = FRESH + (QUOTED if self.cfg.get("quoted") else [])
+            # fresh top-level names, some of them equal to segment names used inside attrpath bindings
+            pool = FRESH + ["x", "y", "z", "t", "i"] + (QUOTED if self.cfg.get("quoted") else [])
             p = (rng.choice(pool),)
         else:
             p = tuple(rng.choice(FRESH) for _ in range(rng.randint(2, 3)))
